@@ -1,0 +1,21 @@
+//go:build verif
+
+// Contracts for the verifier in /verif (comment-only file; contributes no declarations).
+package utils
+
+// C15: the semigroup combination of two maps, instantiated for the status-code counters (map[int]Count, Count.Combine is
+// addition): the keys are the union, every value is the sum of the two sides (an absent side counts as zero).
+//@ func (Map).Combine
+//@   prop C15
+//@   instantiate K=int, V=shareddiscovery.Count
+//@   requires (mapA == nil || allocated(mapA)) && (mapB == nil || allocated(mapB))
+//@   modifies nothing
+//@   allocates map
+//@   loop 1 modifies mapof(res)
+//@   loop 1 invariant[copy-of-a] res != nil && forall(k, int, in(k, res) <==> in(k, seen1)) && forall(k, int, in(k, res) ==> res[k] == mapA[k])
+//@   loop 2 modifies mapof(res)
+//@   loop 2 invariant[union-so-far] res != nil && forall(k, int, in(k, res) <==> (in(k, mapA) || in(k, seen2)))
+//@   loop 2 invariant[sums-so-far] forall(k, int, in(k, res) ==> res[k] == ite(in(k, mapA), mapA[k], 0) + ite(in(k, seen2), mapB[k], 0))
+//@   ensures[keys-union] result != nil && forall(k, int, in(k, result) <==> (in(k, mapA) || in(k, mapB)))
+//@   ensures[pointwise-sum] forall(k, int, in(k, result) ==> result[k] == ite(in(k, mapA), mapA[k], 0) + ite(in(k, mapB), mapB[k], 0))
+//@   ensures[fresh] allocated(result) && !old(allocated(result))
